@@ -50,6 +50,7 @@ def generate(seed, mode):
     want_super = mode.get('super', False)
     nops = w.randint(4, 25)
     specarg_world = h64(seed, 'class-specifications-as-arguments') % 3 == 0
+    typedecl_world = h64(seed, 'declarations-for-the-builtin-type') % 4 == 0
     ops = []
 
     def xs(kmax=2, allow_empty=False):
@@ -115,6 +116,9 @@ def generate(seed, mode):
             ops.append({'op': 'cnprov', 'c': o.randrange(16), 'x': o.randrange(nI), 'k': k})
         elif r < 0.91 and nf:
             ops.append({'op': 'fimpl', 'f': o.randrange(16), 'xs': xs(2, True), 'k': k})
+        elif r < 0.925 and typedecl_world and o.random() < 0.6:
+            # a declaration for the builtin `type` itself, made after classes exist: every class is an instance of it
+            ops.append({'op': 'timpl', 'xs': xs(1), 'k': k})
         elif r < 0.925:
             # an *instance* declared as a factory (implementer(...)(ob) stores what calling it gives in ob.__implemented__):
             # says nothing about what ob provides, nor about what super proxies of ob see
@@ -359,6 +363,7 @@ def execute(program, ctx, mode):
         return {idx_of[id(i)] for i in spec.flattened() if id(i) in idx_of}
 
     meta_impl = [x % nI for x in (W.get('meta_impl') or [])]
+    type_impl = []      # declared for the builtin `type` during the history (op `timpl`)
     # one world in five: classes and instances that are false in a boolean context (metaclass __bool__, __len__ == 0) --
     # legal, if unusual, and exactly what an `if cls:` / `if ob:` slip would trip over
     falsy_world = h64(program.get('seed') or 0, 'falsy-world') % 5 == 0
@@ -506,6 +511,10 @@ def execute(program, ctx, mode):
                 # a class is an instance of its metaclass: it also provides what the metaclass implements
                 dlo = dlo | M.clos(meta_impl)
                 dhi = dhi | M.clos(meta_impl)
+            if type_impl:
+                # ... and every class is an instance of `type` (what was declared for it, whenever that was)
+                dlo = dlo | M.clos(type_impl)
+                dhi = dhi | M.clos(type_impl)
             got = as_set(providedBy(cls))
             if not (dlo <= got <= dhi):
                 ctx.violation('C01', 'providedBy(class)-bounds',
@@ -868,7 +877,7 @@ def execute(program, ctx, mode):
                     except ValueError:
                         raised = True
                     ctx.log(step, 'cnprov', c, x, raised)
-                    via_meta = bool(m.get('meta')) and x in M.clos(meta_impl)
+                    via_meta = (bool(m.get('meta')) and x in M.clos(meta_impl)) or x in M.clos(type_impl)
                     if raised and not via_meta:
                         ctx.violation('C01', 'noLongerProvides(class)-raised', 'C01|noLongerProvides(class)|spurious-ValueError',
                                       {'class': c, 'iface': x})
@@ -876,6 +885,14 @@ def execute(program, ctx, mode):
                         ctx.violation('C01', 'noLongerProvides(class)-should-raise', 'C01|noLongerProvides(class)|no-ValueError',
                                       {'class': c, 'iface': x})
                 m['dmust'], m['dmay'] = dm['must'], dm['may']
+            elif name == 'timpl':
+                xs = [x % nI for x in op['xs']]
+                classImplements(type, *[ifs[x] for x in xs])
+                for x in xs:
+                    if x not in type_impl:
+                        type_impl.append(x)
+                ctx.probe('declaration-for-the-builtin-type')
+                ctx.log(step, 'timpl', xs)
             elif name == 'fimpl':
                 if not funcs:
                     continue
